@@ -70,8 +70,8 @@ def compare(m, label, route, model, other, inputs):
         m.violation(f'{route}/facts-differ/{"+".join(diff)}' + (f'/{why}' if why else ''), grammar=label, original={k: f1[k] for k in diff}, reloaded={k: f2[k] for k in diff})
     nt = 0
     for t in inputs:
-        a = impl.parse(model, t)
-        b = impl.parse(other, t)
+        a = impl.parse(model, t, _start_policy=True)
+        b = impl.parse(other, t, _start_policy=True)
         m.add('evaluations', 2)
         if a[0] == 'ok':
             nt += 1
@@ -100,7 +100,7 @@ def check_text(m, label, text, inputs, routes=('json', 'pickle', 'source', 'pick
                 # a model that has been used (its optimised copy is cached on it) must serialise as well
                 used = impl.compile_text(text)
                 for t in inputs[:3]:
-                    impl.parse(used, t)
+                    impl.parse(used, t, _start_policy=True)
                 other = via_pickle(used) if route.startswith('pickle') else via_json(used)
             else:
                 other = via_source(text)
